@@ -1,4 +1,5 @@
 import DigModel.Proofs.NoBug
+import DigModel.Proofs.InvokeShape
 /-
   The facts the resolver relies on (`RegWF`, `HomeOK`, `Cached`) hold in every reachable container.
 -/
@@ -621,5 +622,348 @@ theorem NBInv.decorate {st : St} (ctx : Ctx) (h : NBInv ctx.env st) (fn : Fn) (i
         · rw [ha.pre d hlt] at hst ⊢; exact ⟨hlt, hst, rfl, rfl⟩
         · have : d = st.decos.length := by omega
           subst this; rw [ha.node.2.1] at hst; cases hst
+
+end Dig
+
+namespace Dig
+
+/-- same node tables, same registration tables per scope -/
+theorem RegWF.same {env : TyEnv} {a b : St} (h : RegWF env a) (hc : b.ctors = a.ctors) (hd : b.decos = a.decos)
+    (hs : ∀ j, (b.scope j).providers = (a.scope j).providers ∧ (b.scope j).decorators = (a.scope j).decorators) :
+    RegWF env b := by
+  have ec : ∀ n, b.ctor n = a.ctor n := fun n => by simp [St.ctor, hc]
+  have ed : ∀ d, b.deco d = a.deco d := fun d => by simp [St.deco, hd]
+  have ek : ∀ n, ctorKeys b n = ctorKeys a n := fun n => by unfold ctorKeys; rw [ec n]
+  refine ⟨?_, ?_, ?_, ?_⟩
+  · intro n hn; rw [ec n]; exact h.ctorParams n (by rw [← hc]; exact hn)
+  · intro d hdl; rw [ed d]; exact h.decoParams d (by rw [← hd]; exact hdl)
+  · intro S k n hn hk
+    rw [(hs S).1] at hn
+    rw [ec n, ek n]
+    exact h.provPlain S k n hn hk
+  · intro s k d hdd hk
+    rw [(hs s).2] at hdd
+    rw [hd, ed d]
+    exact h.decoPlain s k d hdd hk
+
+/-- the three resolver facts of `NBInv` that are about tables and caches only -/
+structure NB3 (env : TyEnv) (st : St) : Prop where
+  wf : RegWF env st
+  home : HomeOK st
+  cached : Cached env st
+
+theorem NB3.same {env : TyEnv} {a b : St} (h : NB3 env a) (hc : b.ctors = a.ctors) (hd : b.decos = a.decos)
+    (hl : a.scopes.length ≤ b.scopes.length)
+    (hs : ∀ j, (b.scope j).providers = (a.scope j).providers ∧ (b.scope j).decorators = (a.scope j).decorators ∧
+      (b.scope j).values = (a.scope j).values ∧ (b.scope j).decoratedValues = (a.scope j).decoratedValues) : NB3 env b :=
+  ⟨h.wf.same hc hd (fun j => ⟨(hs j).1, (hs j).2.1⟩), h.home.same hc hd hl,
+   h.cached.same hc hd (fun j => ⟨(hs j).2.2.1, (hs j).2.2.2⟩)⟩
+
+theorem NB3.ghOnly {env : TyEnv} {a b : St} (h : NB3 env a) (hg : GhOnly a b) : NB3 env b :=
+  h.same hg.1.symm hg.2.1.symm (by rw [hg.2.2.2.2.2.2.1]; exact Nat.le_refl _)
+    (fun j => by
+      obtain ⟨_, _, p3, p4, p5, p6, _⟩ := hg.2.2.2.2.2.2.2 j
+      exact ⟨p3.symm, p4.symm, p5.symm, p6.symm⟩)
+
+theorem NB3.invoke {st : St} (ctx : Ctx) (hh : HInv st) (h : NB3 ctx.env st) (fn : Fn) (s : Nat) (info : Bool) :
+    NB3 ctx.env (apiInvoke ctx fn st s info).1 := by
+  rw [apiInvoke_eq]
+  unfold apiInvoke'
+  cases fn.nonfunc with
+  | some _ => exact h
+  | none =>
+    simp only
+    have hg := ghOnly_parseParams ctx.env st s fn
+    have hhw := hh.ghOnly hg
+    have hw := h.ghOnly hg
+    have hrb := parse_rollback_eq ctx.env st s fn
+    cases hpp : parseParams ctx.env st s fn with
+    | mk r w =>
+      rw [hpp] at hw hrb hhw
+      simp only at hrb hw hhw
+      cases r with
+      | error e => simp only; rw [hrb]; exact h
+      | ok params =>
+        simp only
+        have hs := shallowCheck_state s params w
+        cases hsc : shallowCheck s params w with
+        | mk r2 w2 =>
+          rw [hsc] at hs; simp only at hs; subst hs
+          cases r2 with
+          | error f => exact hw
+          | ok u =>
+            simp only
+            cases hchk : invokeCheck w2 s with
+            | error v => exact hw
+            | ok w3 =>
+              simp only
+              have hw3 : NB3 ctx.env w3 ∧ HInv w3 := by
+                unfold invokeCheck at hchk
+                split at hchk
+                · injection hchk with e; rw [← e]; exact ⟨hw, hhw⟩
+                · split at hchk
+                  · injection hchk with e; rw [← e]
+                    refine ⟨hw.same rfl rfl (by simp [St.modScope]) ?_, hhw.modVerified s true⟩
+                    intro j
+                    rw [scope_modScope]
+                    split <;> exact ⟨rfl, rfl, rfl, rfl⟩
+                  · cases hchk
+                  · cases hchk
+              have hei : EI ctx.env w3.ctors.length w3.decos.length w3 :=
+                ⟨⟨hw3.2.valid, rfl, rfl⟩, hw3.1.home, hw3.1.wf, hw3.1.cached⟩
+              have hb := ei_buildList ctx _ _ (engineFuel w3 params) params s w3 hei
+              unfold invokeRun
+              rw [← wrapErr_state _ DErr.argsFailed] at hb
+              cases hbl : EM.wrapErr (Dig.buildList ctx (engineFuel w3 params) params s) DErr.argsFailed w3 with
+              | mk r4 w4 =>
+                rw [hbl] at hb
+                simp only at hb
+                have hb3 : NB3 ctx.env w4 := ⟨hb.wf, hb.home, hb.cached⟩
+                cases r4 with
+                | error f => exact hb3
+                | ok args =>
+                  simp only
+                  have hf := callBody_fields ctx .invoked fn args w4
+                  exact hb3.same hf.2.1 hf.2.2.1 (by rw [hf.1]; exact Nat.le_refl _)
+                    (fun j => by rw [scope_of_scopes_eq hf.1 j]; exact ⟨rfl, rfl, rfl, rfl⟩)
+
+theorem NBInv.nb3 {env : TyEnv} {st : St} (h : NBInv env st) : NB3 env st := ⟨h.wf, h.home, h.cached⟩
+
+theorem NBInv.invoke {st : St} (ctx : Ctx) (h : NBInv ctx.env st) (fn : Fn) (s : Nat) (info : Bool) :
+    NBInv ctx.env (apiInvoke ctx fn st s info).1 := by
+  have h3 := NB3.invoke ctx h.h h.nb3 fn s info
+  exact ⟨h.h.invoke ctx fn s info, h.reg.invoke ctx fn s info, h3.wf, h3.home, h3.cached⟩
+
+end Dig
+
+namespace Dig
+
+theorem copyOrder_desc2 (child parent : Nat) : ∀ (l : List GNode) (w : St) (j : Nat),
+    CtorDesc2 ((l.foldl (copyOrder child parent) w).ctor j) (w.ctor j) := by
+  intro l
+  induction l with
+  | nil => intro w j; exact ⟨rfl, rfl, rfl, rfl, rfl⟩
+  | cons x xs ih =>
+    intro w j
+    simp only [List.foldl_cons]
+    obtain ⟨a1, a2, a3, a4, a5⟩ := ih (copyOrder child parent w x) j
+    have hx : CtorDesc2 ((copyOrder child parent w x).ctor j) (w.ctor j) := by
+      cases x with
+      | ctor n =>
+        simp only [copyOrder]
+        rw [ctor_modCtor]
+        split <;> exact ⟨rfl, rfl, rfl, rfl, rfl⟩
+      | pg i => exact ⟨rfl, rfl, rfl, rfl, rfl⟩
+    exact ⟨a1.trans hx.1, a2.trans hx.2.1, a3.trans hx.2.2.1, a4.trans hx.2.2.2.1, a5.trans hx.2.2.2.2⟩
+
+theorem NB3.scope {env : TyEnv} {st : St} (h : NB3 env st) (parent : Nat) : NB3 env (apiScope st parent) := by
+  let c : ScopeSt := { parent := some parent, gh := (st.scope parent).gh }
+  let st1 : St := { st with scopes := st.scopes ++ [c] }
+  let st2 : St := st1.modScope parent fun x => { x with children := x.children ++ [st.scopes.length] }
+  have hdef : apiScope st parent = (st.scope parent).gh.foldl (copyOrder st.scopes.length parent) st2 := rfl
+  obtain ⟨_, f2, f3, f4, _⟩ := copyOrder_fold st.scopes.length parent (st.scope parent).gh st2
+  have hd2 := copyOrder_desc2 st.scopes.length parent (st.scope parent).gh st2
+  rw [← hdef] at f2 f3 f4 hd2
+  have hdecos : (apiScope st parent).decos = st.decos := f2
+  have hlen : (apiScope st parent).ctors.length = st.ctors.length := f4
+  have hctor : ∀ j, CtorDesc2 ((apiScope st parent).ctor j) (st.ctor j) := hd2
+  have hcs := cacheSame_apiScope st parent
+  have hpr := apiScope_providers st parent
+  have hdeco : ∀ j, ((apiScope st parent).scope j).decorators = (st.scope j).decorators := by
+    intro j
+    rw [scope_of_scopes_eq f3 j]
+    show (st2.scope j).decorators = _
+    rw [scope_modScope]
+    have e1 : (st1.scope j).decorators = (st.scope j).decorators := by
+      simp only [St.scope, st1]
+      rw [getD_append_one]
+      split
+      · rfl
+      · rename_i hj
+        have : st.scopes.getD j default = default := by
+          rw [List.getD_eq_getElem?_getD]
+          have : st.scopes[j]? = none := by simp; omega
+          simp [this]
+        have this' : st.scopes.getD j ({ parent := none } : ScopeSt) = { parent := none } := this
+        rw [this']
+        split <;> rfl
+    split
+    · exact e1
+    · exact e1
+  have ed : ∀ d, (apiScope st parent).deco d = st.deco d := fun d => by simp [St.deco, hdecos]
+  have ek : ∀ n, ctorKeys (apiScope st parent) n = ctorKeys st n := fun n => by unfold ctorKeys; rw [(hctor n).2.1]
+  refine ⟨⟨?_, ?_, ?_, ?_⟩, ⟨?_, ?_⟩, ?_⟩
+  · intro n hn; rw [(hctor n).2.2.2.1]; exact h.wf.ctorParams n (by rw [← hlen]; exact hn)
+  · intro d hdl; rw [ed d]; exact h.wf.decoParams d (by rw [← hdecos]; exact hdl)
+  · intro S k n hn hk
+    rw [(hpr S).1] at hn
+    rw [(hctor n).2.2.1, ek n]
+    exact h.wf.provPlain S k n hn hk
+  · intro s k d hdd hk
+    rw [hdeco s] at hdd
+    rw [hdecos, ed d]
+    exact h.wf.decoPlain s k d hdd hk
+  · intro n hn
+    rw [(hctor n).2.2.1]
+    exact Nat.lt_of_lt_of_le (h.home.ctor n (by rw [← hlen]; exact hn)) (hpr 0).2
+  · intro d hdl
+    rw [ed d]
+    exact Nat.lt_of_lt_of_le (h.home.deco d (by rw [← hdecos]; exact hdl)) (hpr 0).2
+  · refine h.cached.transfer ?_ ?_ (fun j => ⟨(hcs.2.2 j).1, (hcs.2.2 j).2.1⟩)
+    · intro n hn hcl
+      rw [(hctor n).2.2.2.2] at hcl
+      exact ⟨by rw [← hlen]; exact hn, hcl, (hctor n).2.1, (hctor n).2.2.1⟩
+    · intro d hdl hst
+      rw [ed d] at hst ⊢
+      exact ⟨by rw [← hdecos]; exact hdl, hst, rfl, rfl⟩
+
+theorem NBInv.scope {env : TyEnv} {st : St} (h : NBInv env st) (parent : Nat) : NBInv env (apiScope st parent) := by
+  have h3 := h.nb3.scope parent
+  exact ⟨h.h.scope parent, h.reg.scope parent, h3.wf, h3.home, h3.cached⟩
+
+theorem NBInv.resetLog {env : TyEnv} {st : St} (h : NBInv env st) : NBInv env { st with log := [] } := by
+  have h3 : NB3 env { st with log := [] } := h.nb3.same rfl rfl (Nat.le_refl _) (fun _ => ⟨rfl, rfl, rfl, rfl⟩)
+  exact ⟨h.h.resetLog, h.reg.of_tables rfl rfl, h3.wf, h3.home, h3.cached⟩
+
+end Dig
+
+namespace Dig
+
+theorem NBInv.step {st : St} (ctx : Ctx) (h : NBInv ctx.env st) (fns : List Fn) (i : Nat) (op : Op) :
+    NBInv ctx.env (Dig.step ctx fns st i op).1 := by
+  have h0 := h.resetLog
+  cases op with
+  | scope parent =>
+    simp only [Dig.step]
+    split
+    · exact h0.scope parent
+    · exact h0
+  | provide s f o =>
+    simp only [Dig.step]
+    split
+    · split
+      · rename_i hs; exact h0.provide ctx _ i s o hs
+      · exact h0
+    · exact h0
+  | decorate s f cb info =>
+    simp only [Dig.step]
+    split
+    · split
+      · rename_i hs; exact h0.decorate ctx _ i s cb info hs
+      · exact h0
+    · exact h0
+  | invoke s f info =>
+    simp only [Dig.step]
+    split
+    · split
+      · exact h0.invoke ctx _ s info
+      · exact h0
+    · exact h0
+  | visualize s e => cases e <;> (simp only [Dig.step]; split <;> exact h0)
+  | string s => simp only [Dig.step]; split <;> exact h0
+
+theorem NBInv.runOps (ctx : Ctx) (fns : List Fn) : ∀ (ops : List Op) (i : Nat) (st : St) (acc : List OpRes),
+    NBInv ctx.env st → NBInv ctx.env (Dig.runOps ctx fns ops i st acc).1 := by
+  intro ops
+  induction ops with
+  | nil => intro i st acc h; exact h
+  | cons op rest ih =>
+    intro i st acc h
+    simp only [Dig.runOps]
+    exact ih _ _ _ (h.step ctx fns i op)
+
+/-- **Invoke never panics inside the resolver**: if an Invoke on a reachable container ends with a panic of dig's own,
+    it was the acyclicity check that answered out-of-range / out-of-fuel (excluded separately) -/
+theorem apiInvoke_nobug {st : St} (ctx : Ctx) (h : NBInv ctx.env st) (fn : Fn) (s : Nat) (info : Bool)
+    (hv : (apiInvoke ctx fn st s info).2.v = .panicDig) :
+    ∃ params w, parseParams ctx.env st s fn = (.ok params, w) ∧ invokeCheck w s = .error .panicDig := by
+  rw [apiInvoke_eq] at hv
+  unfold apiInvoke' at hv
+  cases hnf : fn.nonfunc with
+  | some _ => rw [hnf] at hv; cases hv
+  | none =>
+    rw [hnf] at hv
+    simp only at hv
+    have hg := ghOnly_parseParams ctx.env st s fn
+    have hhw := h.h.ghOnly hg
+    have hw := h.nb3.ghOnly hg
+    cases hpp : parseParams ctx.env st s fn with
+    | mk r w =>
+      rw [hpp] at hw hhw hv
+      simp only at hw hhw hv
+      cases r with
+      | error e => cases hv
+      | ok params =>
+        simp only at hv
+        have hwf := parseParams_wf ctx.env st s fn params w hpp
+        have hs := shallowCheck_state s params w
+        cases hsc : shallowCheck s params w with
+        | mk r2 w2 =>
+          rw [hsc] at hs hv; simp only at hs hv; subst hs
+          cases r2 with
+          | error f =>
+            simp only at hv
+            unfold shallowCheck at hsc
+            split at hsc
+            · cases hsc
+            · injection hsc with e1 _; injection e1 with e1; subst e1; cases hv
+          | ok u =>
+            simp only at hv
+            cases hchk : invokeCheck w2 s with
+            | error v =>
+              rw [hchk] at hv
+              simp only at hv
+              subst hv
+              exact ⟨params, w2, rfl, hchk⟩
+            | ok w3 =>
+              rw [hchk] at hv
+              simp only at hv
+              exfalso
+              have hw3 : NB3 ctx.env w3 ∧ HInv w3 := by
+                unfold invokeCheck at hchk
+                split at hchk
+                · injection hchk with e; rw [← e]; exact ⟨hw, hhw⟩
+                · split at hchk
+                  · injection hchk with e; rw [← e]
+                    refine ⟨hw.same rfl rfl (by simp [St.modScope]) ?_, hhw.modVerified s true⟩
+                    intro j
+                    rw [scope_modScope]
+                    split <;> exact ⟨rfl, rfl, rfl, rfl⟩
+                  · cases hchk
+                  · cases hchk
+              have hei : EI ctx.env w3.ctors.length w3.decos.length w3 :=
+                ⟨⟨hw3.2.valid, rfl, rfl⟩, hw3.1.home, hw3.1.wf, hw3.1.cached⟩
+              have hnb := nb_wrapErr DErr.argsFailed
+                ((engine_nobug ctx _ _ (engineFuel w3 params)).2.2.2.2.2 params s w3 hwf hei)
+              unfold NB at hnb
+              unfold invokeRun at hv
+              cases hbl : EM.wrapErr (Dig.buildList ctx (engineFuel w3 params) params s) DErr.argsFailed w3 with
+              | mk r4 w4 =>
+                rw [hbl] at hv hnb
+                cases r4 with
+                | error f =>
+                  simp only at hv hnb
+                  cases f with
+                  | bug => exact hnb rfl
+                  | err e => cases hv
+                  | panic a b => cases hv
+                  | fuel => cases hv
+                | ok args =>
+                  simp only at hv
+                  cases hcb : callBody ctx .invoked fn args w4 with
+                  | mk r5 w5 =>
+                    rw [hcb] at hv
+                    simp only at hv
+                    cases r5 with
+                    | dry => cases hv
+                    | ok a b => cases hv
+                    | err x out =>
+                      by_cases hc : (out + 1 == fn.outs.length) = true
+                      · simp only [if_pos hc] at hv; cases hv
+                      · simp only [if_neg hc] at hv; cases hv
+                    | panic x =>
+                      by_cases hc : ctx.cfg.recover = true
+                      · simp only [if_pos hc] at hv; cases hv
+                      · simp only [if_neg hc] at hv; cases hv
 
 end Dig
